@@ -1,5 +1,6 @@
 import Driver.Sexp
 import Driver.C15
+import Driver.C07
 import Driver.Parse
 import Driver.TextCmd
 import Driver.Tree
@@ -9,6 +10,8 @@ def handle (line : String) : String :=
   match Sexp.parseLine line with
   | some (.atom "c15" :: args) => runC15 false args
   | some (.atom "c15pinned" :: args) => runC15 true args
+  | some (.atom "c07ops" :: args) => runC07 false args
+  | some (.atom "c07opspinned" :: args) => runC07 true args
   | some (.atom "parse" :: args) => runParse args
   | some (.atom "c11" :: args) => runC11 args
   | some (.atom "c09" :: args) => runC09 args
